@@ -14,6 +14,7 @@ import core
 from num import dy, dyv, dym
 
 PER_TEST = 6
+ALL_KINDS = ('CallPairs', 'CallTransform', 'CallMatrix', 'CallPredictPairs', 'CallTuples')
 
 
 def convert(e):
@@ -89,14 +90,14 @@ def traces_from(events, kinds, cap_tests, rng):
       for k in sorted(seen):
         if seen[k] and len(pick) < PER_TEST:
           pick.append(seen[k].pop(0))
-    out.append(({'suite': True, 'test': t, 'est': pick[0]['cls']},
+    out.append(({'suite': True, 'src': 'suite', 'test': t, 'est': pick[0]['cls']},
                 {'est': pick[0]['cls'], 'test': t, 'events': [convert(x) for x in pick]}))
   return out
 
 
 def regen(recipe, kinds):
   """replay: re-run the one test on the current tree and return its recorded calls as a trace"""
-  work = tempfile.mkdtemp(prefix='suite_replay_', dir=os.path.join(core.OUT, '.work') if os.path.isdir(os.path.join(core.OUT, '.work')) else None)
+  work = tempfile.mkdtemp(prefix="suite_replay_")
   try:
     events, _ = core.record_suite_calls(work, files=[recipe['test']])
     got = traces_from(events, kinds, 0, np.random.default_rng(0))
@@ -105,3 +106,89 @@ def regen(recipe, kinds):
     return got[0][1]
   finally:
     shutil.rmtree(work, ignore_errors=True)
+
+
+# ----------------------------------------------------------------------------
+# object histories (events 'Life') -> traces for TR_ObjLife
+# ----------------------------------------------------------------------------
+LIFE_SPEC = ('TR_ObjLife', 'TR_ObjLife.cfg')
+MAX_HISTORY = 40
+
+
+def _snap(o):
+  has = o.get('thr') is not None
+  return {'fitted': bool(o['fitted']), 'dig': int(o['dig']), 'hasthr': has, 'thr': dy(float(o['thr'])) if has else dy(0.0),
+          'nfeat': int(o['nfeat']), 'par': int(o['par'])}
+
+
+def _life_event(e):
+  ev = {'act': e['act'], 'exc': e['exc'], 'before': _snap(e['before']), 'after': _snap(e['after']), 'd': int(e.get('d', -1)),
+        'ret_self': bool(e.get('ret_self', False)), 'hasarg': e.get('arg') is not None,
+        'arg': dy(float(e['arg'])) if e.get('arg') is not None else dy(0.0), 'test': e.get('test', '')}
+  return ev
+
+
+def life_traces(events, cap, rng):
+  """one trace per estimator object seen by the recorded tests (its first MAX_HISTORY public calls)"""
+  by = {}
+  for e in events:
+    if e.get('ev') == 'Life':
+      by.setdefault(e['obj'], []).append(e)
+  objs = sorted(by)
+  if cap and len(objs) > cap:
+    # keep every (estimator, set of actions) combination represented
+    strata = {}
+    for o in objs:
+      strata.setdefault((by[o][0]['cls'], tuple(sorted({x['act'] for x in by[o]}))), []).append(o)
+    keep, keys = [], sorted(strata)
+    while len(keep) < cap and keys:
+      for k in list(keys):
+        if strata[k]:
+          keep.append(strata[k].pop(int(rng.integers(len(strata[k])))))
+        else:
+          keys.remove(k)
+        if len(keep) >= cap:
+          break
+    objs = sorted(keep)
+  out = []
+  for o in objs:
+    evs = by[o][:MAX_HISTORY]
+    tests = sorted({x.get('test', '') for x in evs})
+    out.append(({'suite_life': True, 'src': 'suite', 'tests': tests, 'est': evs[0]['cls']},
+                {'est': evs[0]['cls'], 'pairs_classifier': bool(evs[0]['pairs_classifier']), 'tests': tests,
+                 'events': [_life_event(x) for x in evs]}))
+  return out
+
+
+def regen_life(recipe):
+  """replay: re-run the tests the object lived in; all histories of that estimator class, joined (the joins are Env steps)"""
+  work = tempfile.mkdtemp(prefix='suite_replay_')
+  try:
+    events, _ = core.record_suite_calls(work, files=[t for t in recipe['tests'] if t])
+    evs = [e for e in events if e.get('ev') == 'Life' and e['cls'] == recipe['est']]
+    return {'est': recipe['est'], 'pairs_classifier': bool(evs and evs[0]['pairs_classifier']), 'tests': recipe['tests'],
+            'events': [_life_event(x) for x in evs[:10 * MAX_HISTORY]]}
+  finally:
+    shutil.rmtree(work, ignore_errors=True)
+
+
+def life_signature(recipe, tr, clause, pos):
+  e = tr['events'][pos - 1] if 0 < pos <= len(tr['events']) else {}
+  return {'estimator': recipe['est'], 'action': e.get('act', ''), 'suite': True}
+
+
+def judge_life(ctx, events, cap):
+  """validate the recorded object histories against ObjLife; violations of ctx.pid's clauses are registered"""
+  pairs = life_traces(events, cap, np.random.default_rng(ctx.seed))
+  if len(pairs) < 20:
+    raise core.MachineryError('only %d object histories recorded from the repository test suite' % len(pairs))
+  core.judge(ctx, *LIFE_SPEC, pairs, life_signature, tag='life')
+  for recipe, tr in pairs:
+    ctx.note_case(('suite_life', recipe['est'], tuple(recipe['tests']), len(tr['events'])))
+  acts = {}
+  for _, tr in pairs:
+    for e in tr['events']:
+      acts[e['act']] = acts.get(e['act'], 0) + 1
+  ctx.extra['suite_object_histories'] = {'objects': len(pairs), 'events': sum(len(t['events']) for _, t in pairs),
+                                        'actions': acts, 'estimators': sorted({r['est'] for r, _ in pairs})}
+  return pairs
